@@ -29,6 +29,7 @@ class C18(Check):
             "under a different PYTHONHASHSEED, compare description, str, ==, hash there, pickle back and compare again here. "
             "distinct = hash of (object class, accessor, mutation) / (class pair, relation) / (class, pickled); non-trivial = a "
             "composite with >= 2 attributes or a cross-interpreter round trip took place")
+    RULE = RULE + "; " + 'rounds 7-8: bit length sets against plain containers and ranges (exact / ragged stop); objects kept from a read vs objects read after an in-place edit; structures with 40 / 70 / 160 / 200 fields through pickle (160 / 200: known finding F20)'
     TIERS = {"quick": {"runs": 480, "budget_s": 50}, "thorough": {"runs": 30000, "budget_s": 900}}
     REAL_VS_STUB = "real: pydsdl model objects, pickle, a second CPython interpreter with another hash seed; simulated: client mutation history, query order; stubbed: nothing"
 
